@@ -8,10 +8,17 @@ claimed = sorted(os.path.basename(f)[:-5] for f in glob.glob(os.path.join(ROOT, 
 ready = set(open(os.path.join(ROOT, 'lib', 'claimed.txt')).read().split())  # checks the lead has seen pass on the unchanged tree
 claimed = [c for c in claimed if c in ready]
 old = json.load(open(os.path.join(ROOT, 'MANIFEST.json')))
+import subprocess
+hooks = old.get("hooks")
+try:
+    hc = subprocess.run(["git", "-C", "/repo", "log", "--format=%h %s", "--grep=^verif:"], capture_output=True, text=True).stdout.strip().split("\n")
+    hooks["source_commits"] = [c for c in hc if c]
+except Exception:
+    pass
 m = {
  "version": 1,
  "setup_cmd": "./setup.sh",
- "hooks": old.get("hooks"),
+ "hooks": hooks,
  "engines": [{"name": "coq-proof+correspondence", "path": "/verif/check", "serves_properties": claimed,
               "kind_free_text": "Coq 8.16.1 theorems over hand-written executable Gallina models; Go differential harness against /repo; model evaluated by coqc/vm_compute on the harness's cases"}],
  "checks": [], "not_applicable": [], "notes": "see DESIGN.md",
@@ -32,6 +39,6 @@ for p in props:
           "level_note": n.get("note", "trusted: Coq kernel, the hand-written model (which code is modelled is listed in the evidence trusted_base), the Go harness and python driver for the correspondence"),
           "technique": n.get("technique", "machine-checked proof in Coq over an executable model + model/implementation correspondence check")})
     else:
-        m["not_applicable"].append({"property_id": pid, "reason": "check not built yet in this session (work in progress; the design in DESIGN.md applies)"})
+        m["not_applicable"].append({"property_id": pid, "reason": "not claimed yet: the check for this property (design in DESIGN.md section 6) has not yet been seen to pass on the unchanged tree by the lead; the technique applies and the property is not given up"})
 json.dump(m, open(os.path.join(ROOT, 'MANIFEST.json'), 'w'), indent=1)
 print("claimed:", claimed)
